@@ -946,10 +946,41 @@ func (env *Env) pureCall(e *SExpr) (Val, bool) {
 	}
 	rt := sig.Results().At(0).Type()
 	fn := ex.pureFn(key, sorts, ex.sorts.sortOf(rt))
+	var r T
 	if len(ts) == 0 {
-		return Val{t: T{fn, ex.sorts.sortOf(rt)}, typ: rt}, true
+		r = T{fn, ex.sorts.sortOf(rt)}
+	} else {
+		r = app(ex.sorts.sortOf(rt), fn, ts...)
 	}
-	return Val{t: app(ex.sorts.sortOf(rt), fn, ts...), typ: rt}, true
+	// instantiate the (assumed or proved) postcondition of the pure function for this application, when the
+	// application contains no bound variable
+	if fc != nil && len(fc.Ensures) > 0 && !strings.Contains(r.s, "$q") && !ex.pureInst[r.s] {
+		ex.pureInst[r.s] = true
+		penv := &Env{ex: ex, fr: env.fr, cur: env.cur, old: env.cur, vars: map[string]Val{"result": {t: r, typ: rt}, "result0": {t: r, typ: rt}}, pkgPath: fc.PkgPath, callerPkg: env.callerPkg}
+		names := []string{}
+		if sig.Recv() != nil {
+			n := sig.Recv().Name()
+			if n == "" || n == "_" {
+				n = "self"
+			}
+			names = append(names, n)
+		}
+		for i := 0; i < sig.Params().Len(); i++ {
+			names = append(names, sig.Params().At(i).Name())
+		}
+		for i, a := range args {
+			if i < len(names) && names[i] != "" {
+				penv.vars[names[i]] = a
+			}
+		}
+		if len(args) > 0 && sig.Recv() != nil {
+			penv.vars["self"] = args[0]
+		}
+		for _, e := range fc.Ensures {
+			ex.assume(tTrue, penv.evalBool(e))
+		}
+	}
+	return Val{t: r, typ: rt}, true
 }
 
 func deref(t types.Type) types.Type {
